@@ -1791,6 +1791,36 @@ def _structure_returns(stmts, on_return):
     return out
 
 
+def _returns_as_breaks(stmts, on_return):
+    """A helper body whose returns sit inside try / with blocks, expanded at its call site: the body becomes the body of a ``while True:`` that is
+    left by ``break`` - ``return v`` -> ``<on_return(v)>; break`` - which is exactly what return means relative to the expanded region (pending
+    finally blocks run, enclosing handlers are left).  A return inside a loop of the helper itself cannot be expressed this way."""
+    def conv(block, in_loop):
+        out = []
+        for st in block:
+            if isinstance(st, ast.Return):
+                if in_loop:
+                    raise _NoInline("return inside a loop of the helper")
+                out.extend(on_return(st.value))
+                out.append(ast.Break())
+                continue
+            if isinstance(st, (ast.FunctionDef, ast.AsyncFunctionDef, ast.ClassDef)):
+                out.append(st)
+                continue
+            loop = isinstance(st, (ast.For, ast.AsyncFor, ast.While))
+            for fld in ("body", "orelse", "finalbody"):
+                if isinstance(getattr(st, fld, None), list):
+                    setattr(st, fld, conv(getattr(st, fld), in_loop or (loop and fld == "body")))
+            for h in getattr(st, "handlers", []) or []:
+                h.body = conv(h.body, in_loop)
+            out.append(st)
+        return out
+    body = conv(list(stmts), False)
+    if not (body and isinstance(body[-1], ast.Break)):
+        body.append(ast.Break())
+    return [ast.While(test=ast.Constant(True), body=body, orelse=[])]
+
+
 class _Subst(ast.NodeTransformer):
     def __init__(self, mapping):
         self.mapping = mapping
@@ -2243,20 +2273,29 @@ class Inliner:
             call, mode = st.value, "expr"
         elif isinstance(st, ast.Return) and st.value is not None and self.helper_of(st.value):
             call, mode = st.value, "return"
-        elif isinstance(st, ast.Assign) and len(st.targets) == 1 and isinstance(st.targets[0], (ast.Name, ast.Attribute)) and self.helper_of(st.value):
+        elif isinstance(st, ast.Assign) and len(st.targets) == 1 and (isinstance(st.targets[0], (ast.Name, ast.Attribute)) or (
+                self.extended and isinstance(st.targets[0], ast.Tuple) and all(isinstance(e, (ast.Name, ast.Attribute)) for e in st.targets[0].elts))) and self.helper_of(st.value):
             call, mode = st.value, "assign"
         try:
             if call is not None:
                 h = self.helper_of(call)
                 body = self._body(h, call)
                 if mode == "expr":
-                    new = _structure_returns(body, lambda v: [ast.Expr(v)] if v is not None and not isinstance(v, (ast.Constant, ast.Name)) else [])
-                elif mode == "return":
+                    on_ret = lambda v: [ast.Expr(v)] if v is not None and not isinstance(v, (ast.Constant, ast.Name)) else []      # noqa: E731
+                    full = body
+                elif mode == "assign":
+                    tgt = st.targets[0]
+                    on_ret = lambda v: [ast.Assign(targets=[_clone(tgt)], value=v if v is not None else ast.Constant(None), lineno=st.lineno)]      # noqa: E731
+                    full = body + ([] if _ends_in_return(body) else [ast.Return(value=ast.Constant(None))])
+                if mode == "return":
                     new = body if _ends_in_return(body) else body + [ast.Return(value=ast.Constant(None))]
                 else:
-                    tgt = st.targets[0]
-                    new = _structure_returns(body + ([] if _ends_in_return(body) else [ast.Return(value=ast.Constant(None))]),
-                                             lambda v: [ast.Assign(targets=[_clone(tgt)], value=v if v is not None else ast.Constant(None), lineno=st.lineno)])
+                    try:
+                        new = _structure_returns(full, on_ret)
+                    except _NoInline:
+                        if not self.extended:
+                            raise
+                        new = _returns_as_breaks(full, on_ret)
                 new = new or [ast.Pass()]
                 for n in new:
                     ast.copy_location(n, st)
